@@ -4,6 +4,7 @@ import (
 	"bufio"
 	"encoding/json"
 	"fmt"
+	"hash/fnv"
 	"math/rand"
 	"reflect"
 	"sort"
@@ -55,6 +56,17 @@ type GenOp struct {
 	Mode string         `json:"mode"`
 	Q    int            `json:"q"`
 	O    int            `json:"o"`
+	Obs  GenObs         `json:"obs"`
+	Ev   string         `json:"ev"`
+}
+
+// GenObs is an observer specification.
+type GenObs struct {
+	Ev      string   `json:"ev"`
+	Obs     []string `json:"obs"`
+	With    []string `json:"with"`
+	Without []string `json:"without"`
+	Excl    bool     `json:"excl"`
 }
 
 // ---------------------------------------------------------------------------------------
@@ -88,6 +100,47 @@ type BVal struct {
 	V map[string]int64 `json:"v"`
 }
 
+// TabCap is size and capacity of one table after a Shrink, with the initial capacity that applies to it.
+type TabCap struct {
+	Size   int `json:"size"`
+	Cap    int `json:"cap"`
+	MinCap int `json:"mincap"`
+}
+
+func (x *Exec) tableCaps() []TabCap {
+	r := []TabCap{}
+	capN, capR := 1024, 128
+	switch len(x.Cfg.Caps) {
+	case 1:
+		capN, capR = x.Cfg.Caps[0], x.Cfg.Caps[0]
+	case 2:
+		capN, capR = x.Cfg.Caps[0], x.Cfg.Caps[1]
+	}
+	st := x.w.Stats()
+	for i := range st.Archetypes {
+		a := &st.Archetypes[i]
+		mc := capN
+		if a.NumRelations > 0 {
+			mc = capR
+		}
+		for _, t := range a.Tables {
+			r = append(r, TabCap{Size: t.Size, Cap: t.Capacity, MinCap: mc})
+		}
+	}
+	return r
+}
+
+// CbRec is one observer callback invocation with a snapshot of the world as seen from inside it.
+type CbRec struct {
+	O      int        `json:"o"`
+	E      ecs.Entity `json:"e"`
+	Alive  bool       `json:"alive"`
+	Seen   int        `json:"seen"`
+	Locked bool       `json:"locked"`
+	Ents   []EntRec   `json:"ents"`
+	Panic  bool       `json:"panic"`
+}
+
 type LogOp struct {
 	K     string                `json:"k"`
 	I     int                   `json:"i"`
@@ -105,6 +158,16 @@ type LogOp struct {
 	Msg   string                `json:"msg"`
 	Ret   []ecs.Entity          `json:"ret"`
 	Bvals []BVal                `json:"bvals"`
+	O     int                   `json:"o"`
+	Obs   GenObs                `json:"obs"`
+	Ev    string                `json:"ev"`
+	Late  bool                  `json:"late"`
+	Caps  []TabCap              `json:"caps"`
+	Iters int                   `json:"iters"`
+	Q     int                   `json:"q"`
+	Ok    bool                  `json:"ok"`
+	Res   Visit                 `json:"res"`
+	Cbs   []CbRec               `json:"cbs"`
 	St    State                 `json:"st"`
 }
 
@@ -125,6 +188,11 @@ type LogProbe struct {
 	Visited []Visit      `json:"visited"`
 	Count   int          `json:"count"`
 	At      []ecs.Entity `json:"at"`
+	// for a registered filter: what an identical unregistered filter yields at the same moment (C05)
+	TwinVisited []ecs.Entity `json:"twin_visited"`
+	TwinCount   int          `json:"twin_count"`
+	TwinAt      []ecs.Entity `json:"twin_at"`
+	TwinPanic   bool         `json:"twin_panic"`
 }
 
 type LogReset struct {
@@ -139,18 +207,20 @@ type LogReset struct {
 
 // Config selects the quantifiers the specification does not range over.
 type Config struct {
-	Path    string   `json:"path"`   // unsafe | typed | map1 | exchange
-	Caps    []int    `json:"caps"`   // NewWorld(caps...)
-	Comps   []string `json:"comps"`  // model components, in registration order
-	Fill    int      `json:"fill"`   // number of filler types registered first (ID layout)
-	RelSt   string   `json:"relst"`  // idx | typ | id : how relation targets are passed to the typed API
-	Perm    bool     `json:"perm"`   // permute type parameter order
-	Probes  int      `json:"probes"` // max probes after each sequence (0 = none, <0 = all)
-	Misuse  int      `json:"misuse"` // max misuse probes after each sequence
-	Seed    int64    `json:"seed"`
-	EveryOp bool     `json:"everyop"` // run the probe battery after every operation instead of at the end
-	Reuse   bool     `json:"reuse"`   // keep unregistered filter objects and reuse them
-	MaxEnt  int      `json:"maxent"`  // driver: soft bound on the number of alive entities
+	Path      string   `json:"path"`   // unsafe | typed | map1 | exchange
+	Caps      []int    `json:"caps"`   // NewWorld(caps...)
+	Comps     []string `json:"comps"`  // model components, in registration order
+	Fill      int      `json:"fill"`   // number of filler types registered first (ID layout)
+	RelSt     string   `json:"relst"`  // idx | typ | id : how relation targets are passed to the typed API
+	Perm      bool     `json:"perm"`   // permute type parameter order
+	Probes    int      `json:"probes"` // max probes after each sequence (0 = none, <0 = all)
+	Misuse    int      `json:"misuse"` // max misuse probes after each sequence
+	Seed      int64    `json:"seed"`
+	EveryOp   bool     `json:"everyop"`   // run the probe battery after every operation instead of at the end
+	Reuse     bool     `json:"reuse"`     // keep unregistered filter objects and reuse them
+	MaxEnt    int      `json:"maxent"`    // driver: soft bound on the number of alive entities
+	Observers int      `json:"observers"` // driver: max simultaneously registered observers (0 = none)
+	Queries   int      `json:"queries"`   // driver: max simultaneously open queries (0 = none)
 }
 
 type regFilter struct {
@@ -178,6 +248,11 @@ type Exec struct {
 	exs     map[string]TypedExchange
 	filters map[int]*regFilter
 	pool    map[string]*regFilter
+	obs     map[int]*ecs.Observer
+	queries map[int]*openQuery
+	cur     *LogOp
+	opIndex int
+	custom  map[string]ecs.EventType
 	seq     int
 	Events  int
 	Panics  int
@@ -220,6 +295,67 @@ func (x *Exec) newWorld() {
 	x.exs = map[string]TypedExchange{}
 	x.filters = map[int]*regFilter{}
 	x.pool = map[string]*regFilter{}
+	x.obs = map[int]*ecs.Observer{}
+	x.queries = map[int]*openQuery{}
+	reg := ecs.EventRegistry{}
+	x.custom = map[string]ecs.EventType{"Custom0": reg.NewEventType(), "Custom1": reg.NewEventType()}
+}
+
+var builtinEvents = map[string]ecs.EventType{
+	"OnCreateEntity": ecs.OnCreateEntity, "OnRemoveEntity": ecs.OnRemoveEntity, "OnAddComponents": ecs.OnAddComponents,
+	"OnRemoveComponents": ecs.OnRemoveComponents, "OnSetComponents": ecs.OnSetComponents,
+	"OnAddRelations": ecs.OnAddRelations, "OnRemoveRelations": ecs.OnRemoveRelations,
+}
+
+func (x *Exec) eventType(name string) ecs.EventType {
+	if t, ok := builtinEvents[name]; ok {
+		return t
+	}
+	if t, ok := x.custom[name]; ok {
+		return t
+	}
+	panic(harnessBug{"unknown event type " + name})
+}
+
+func compsOf(names []string) []ecs.Comp {
+	r := []ecs.Comp{}
+	for _, n := range names {
+		r = append(r, compComps[n])
+	}
+	return r
+}
+
+// callback is what every registered observer runs: it records a snapshot of the world as visible from inside.
+func (x *Exec) callback(id int) func(e ecs.Entity) {
+	return func(e ecs.Entity) {
+		rec := CbRec{O: id, E: e, Ents: []EntRec{}}
+		func() {
+			defer func() {
+				if r := recover(); r != nil {
+					rec.Panic = true
+				}
+			}()
+			rec.Locked = x.w.IsLocked()
+			rec.Alive = !e.IsZero() && x.w.Alive(e)
+			// enumerate the world through a query (entities created by the running operation are not
+			// known to the harness yet); an entity yielded twice is counted in Seen
+			q := ecs.NewFilter0(x.w).Query()
+			got := map[ecs.Entity]bool{}
+			for q.Next() {
+				h := q.Entity()
+				if h == e {
+					rec.Seen++
+				}
+				if !got[h] {
+					got[h] = true
+					rec.Ents = append(rec.Ents, x.entRec(h))
+				}
+			}
+		}()
+		if x.cur != nil {
+			x.cur.Cbs = append(x.cur.Cbs, rec)
+		}
+	}
 }
 
 func (x *Exec) relNames() []string {
@@ -280,11 +416,16 @@ func (x *Exec) exFor(tuple []string, rem []string) TypedExchange {
 	return m
 }
 
-// order returns the type parameter order for a component set (possibly permuted).
+// order returns the type parameter order for a component set (possibly permuted).  The permutation
+// depends only on the seed, the index of the running operation and the names, so that a replay of the
+// same history uses the same order.
 func (x *Exec) order(names []string) []string {
 	t := append([]string{}, names...)
 	if x.Cfg.Perm && len(t) > 1 {
-		x.rng.Shuffle(len(t), func(i, j int) { t[i], t[j] = t[j], t[i] })
+		h := fnv.New64a()
+		fmt.Fprint(h, x.Cfg.Seed, x.opIndex, names)
+		r := rand.New(rand.NewSource(int64(h.Sum64())))
+		r.Shuffle(len(t), func(i, j int) { t[i], t[j] = t[j], t[i] })
 	}
 	return t
 }
@@ -555,7 +696,21 @@ func (x *Exec) run(op GenOp, i int) LogOp {
 	e := x.ent(op.E)
 	tg := x.tgMap(op.Tg)
 	lo := LogOp{K: "op", I: i, Op: op.Op, E: e, Add: op.Add, Rem: op.Rem, Vals: map[string]int64{}, Tg: tg,
-		N: op.N, F: op.F, Flt: x.logFlt(op.Flt), Mode: op.Mode, Ret: []ecs.Entity{}, Bvals: []BVal{}}
+		N: op.N, F: op.F, Flt: x.logFlt(op.Flt), Mode: op.Mode, Ret: []ecs.Entity{}, Bvals: []BVal{},
+		O: op.O, Obs: op.Obs, Ev: op.Ev, Cbs: []CbRec{}, Q: op.Q, Caps: []TabCap{},
+		Res: Visit{V: map[string]int64{}, T: map[string]ecs.Entity{}}}
+	if lo.Obs.Obs == nil {
+		lo.Obs.Obs = []string{}
+	}
+	if lo.Obs.With == nil {
+		lo.Obs.With = []string{}
+	}
+	if lo.Obs.Without == nil {
+		lo.Obs.Without = []string{}
+	}
+	x.cur = &lo
+	x.opIndex = i
+	defer func() { x.cur = nil }()
 	if lo.Add == nil {
 		lo.Add = []string{}
 	}
@@ -589,6 +744,8 @@ func (x *Exec) run(op GenOp, i int) LogOp {
 		x.issued = append(x.issued, h)
 	}
 	if op.Op == "Reset" && !lo.Panic {
+		x.obs = map[int]*ecs.Observer{}
+		x.queries = map[int]*openQuery{}
 		x.ords = x.ords[:0]
 		x.issued = x.issued[:0]
 		x.filters = map[int]*regFilter{}
@@ -620,6 +777,7 @@ func (x *Exec) dispatch(op GenOp, e ecs.Entity, tg map[string]ecs.Entity, lo *Lo
 				h = u.NewEntity(x.idsOf(op.Add)...)
 			}
 			lo.Ret = []ecs.Entity{h}
+			lo.Late = true
 			if !noinit {
 				x.writeUnsafe(h, op.Vals)
 			}
@@ -672,6 +830,7 @@ func (x *Exec) dispatch(op GenOp, e ecs.Entity, tg map[string]ecs.Entity, lo *Lo
 			} else {
 				u.Add(e, x.idsOf(op.Add)...)
 			}
+			lo.Late = true
 			if !noinit {
 				x.writeUnsafe(e, op.Vals)
 			}
@@ -707,6 +866,7 @@ func (x *Exec) dispatch(op GenOp, e ecs.Entity, tg map[string]ecs.Entity, lo *Lo
 	case "Exchange":
 		if unsafePath || len(op.Add) == 0 {
 			u.Exchange(e, x.idsOf(op.Add), x.idsOf(op.Rem), x.unsafeRels(tg)...)
+			lo.Late = true
 			if !noinit {
 				x.writeUnsafe(e, op.Vals)
 			}
@@ -721,7 +881,8 @@ func (x *Exec) dispatch(op GenOp, e ecs.Entity, tg map[string]ecs.Entity, lo *Lo
 		}
 	case "Set":
 		if unsafePath {
-			// the ID-based API has no Set: write through the pointer
+			// the ID-based API has no Set: write through the pointer (no event is emitted)
+			lo.Mode = "ptr"
 			x.writeUnsafe(e, op.Vals)
 			return
 		}
@@ -819,11 +980,52 @@ func (x *Exec) dispatch(op GenOp, e ecs.Entity, tg map[string]ecs.Entity, lo *Lo
 		rf := x.filters[op.F]
 		rf.unregister()
 		delete(x.filters, op.F)
-	case "Shrink":
-		if op.Mode == "one" {
-			w.Shrink(0)
+	case "QOpen":
+		x.queries[op.Q] = x.openQuery(op.F, op.Flt)
+	case "QNext":
+		q := x.queries[op.Q]
+		lo.Ok = q.next(x, &lo.Res)
+		if !lo.Ok {
+			delete(x.queries, op.Q)
+		}
+	case "QClose":
+		if q, ok := x.queries[op.Q]; ok {
+			q.close()
+			if op.Mode != "keep" {
+				delete(x.queries, op.Q)
+			}
+		}
+	case "RegO":
+		o := ecs.Observe(x.eventType(op.Obs.Ev)).For(compsOf(op.Obs.Obs)...).With(compsOf(op.Obs.With)...)
+		if op.Obs.Excl {
+			o = o.Exclusive()
 		} else {
-			w.Shrink()
+			o = o.Without(compsOf(op.Obs.Without)...)
+		}
+		o.Do(x.callback(op.O)).Register(w)
+		x.obs[op.O] = o
+	case "UnregO":
+		x.obs[op.O].Unregister(w)
+		delete(x.obs, op.O)
+	case "Emit":
+		w.Event(x.eventType(op.Ev)).For(compsOf(op.Add)...).Emit(e)
+	case "Shrink":
+		switch op.Mode {
+		case "one":
+			w.Shrink(0)
+		case "loop":
+			// repeated time-limited calls must reach a state without remaining work
+			lo.Ok = false
+			for lo.Iters = 1; lo.Iters <= 5000; lo.Iters++ {
+				if !w.Shrink(0) {
+					lo.Ok = true
+					break
+				}
+			}
+			lo.Caps = x.tableCaps()
+		default:
+			lo.Ok = !w.Shrink()
+			lo.Caps = x.tableCaps()
 		}
 	case "Reset":
 		w.Reset()
@@ -833,9 +1035,116 @@ func (x *Exec) dispatch(op GenOp, e ecs.Entity, tg map[string]ecs.Entity, lo *Lo
 }
 
 // ---------------------------------------------------------------------------------------
+// Queries that stay open across operations (C07, C03).
+
+type openQuery struct {
+	tq  TypedQuery
+	q0  *ecs.Query0
+	uq  *ecs.UnsafeQuery
+	ids []string
+}
+
+func (x *Exec) openQuery(f int, flt GenFlt) *openQuery {
+	qt := x.tgMap(flt.Qt)
+	if x.Cfg.Path == "unsafe" && f == 0 {
+		uf := ecs.NewUnsafeFilter(x.w, x.idsOf(flt.With)...)
+		if flt.Excl {
+			uf = uf.Exclusive()
+		} else if len(flt.Without) > 0 {
+			uf = uf.Without(x.idsOf(flt.Without)...)
+		}
+		all := map[string]ecs.Entity{}
+		for k, v := range x.tgMap(flt.Ft) {
+			all[k] = v
+		}
+		for k, v := range qt {
+			all[k] = v
+		}
+		q := uf.Query(x.unsafeRels(all)...)
+		return &openQuery{uq: &q, ids: flt.With}
+	}
+	rf := x.filterFor(f, flt)
+	if rf.f0 != nil {
+		q := rf.f0.Query(x.unsafeRels(qt)...)
+		return &openQuery{q0: &q, ids: []string{}}
+	}
+	return &openQuery{tq: rf.tf.Query(x.typedRels(rf.ids, qt)...), ids: rf.ids}
+}
+
+func (q *openQuery) next(x *Exec, v *Visit) bool {
+	v.PtrEq = true
+	switch {
+	case q.uq != nil:
+		if !q.uq.Next() {
+			return false
+		}
+		v.E = q.uq.Entity()
+		for _, c := range q.ids {
+			p := q.uq.Get(x.ids[c])
+			v.V[c] = *x.payload(c, p)
+			if p != x.w.Unsafe().Get(v.E, x.ids[c]) {
+				v.PtrEq = false
+			}
+			if x.rel[c] {
+				v.T[c] = q.uq.GetRelation(x.ids[c])
+			}
+		}
+	case q.q0 != nil:
+		if !q.q0.Next() {
+			return false
+		}
+		v.E = q.q0.Entity()
+	default:
+		if !q.tq.Next() {
+			return false
+		}
+		v.E = q.tq.Entity()
+		ps := q.tq.Get()
+		mp := x.mapFor(q.ids).Get(v.E)
+		for i, c := range q.ids {
+			v.V[c] = *ps[i]
+			if ps[i] != mp[i] {
+				v.PtrEq = false
+			}
+			if x.rel[c] {
+				v.T[c] = q.tq.GetRelation(i)
+			}
+		}
+	}
+	return true
+}
+
+func (q *openQuery) close() {
+	switch {
+	case q.uq != nil:
+		q.uq.Close()
+	case q.q0 != nil:
+		q.q0.Close()
+	default:
+		q.tq.Close()
+	}
+}
+
+// ---------------------------------------------------------------------------------------
 // Probes: queries through the API path under test, logged for the monitor (C03, C05).
 
 func (x *Exec) probe(f int, flt GenFlt, api string) LogProbe {
+	lp := x.probe1(f, flt, api)
+	lp.TwinVisited, lp.TwinAt = []ecs.Entity{}, []ecs.Entity{}
+	if f != 0 {
+		saved := x.Cfg.Reuse
+		x.Cfg.Reuse = false
+		tw := x.probe1(0, flt, api)
+		x.Cfg.Reuse = saved
+		for _, v := range tw.Visited {
+			lp.TwinVisited = append(lp.TwinVisited, v.E)
+		}
+		lp.TwinCount, lp.TwinAt, lp.TwinPanic = tw.Count, tw.At, tw.Panic
+	}
+	return lp
+}
+
+func (x *Exec) probe1(f int, flt GenFlt, api string) LogProbe {
 	lp := LogProbe{K: "probe", Flt: x.logFlt(flt), F: f, Api: api, Visited: []Visit{}, At: []ecs.Entity{}}
 	func() {
 		defer func() {
@@ -989,7 +1298,6 @@ func (x *Exec) battery() {
 		flt := rf.flt
 		flt.Qt = FlexMap[int]{}
 		x.emit(x.probe(id, flt, "typed"))
-		x.emit(x.probe(0, flt, "typed")) // the unregistered twin
 		for _, c := range flt.With {
 			if !isRelName(c) {
 				continue
